@@ -359,8 +359,9 @@ def shards(tier, seed):
         sh("nary3-plus", "nary3", _combos(3, ALL), [["+"]])
         sh("nary3-times", "nary3", _combos(3, ALL), [["*"]])
         for top in "+-*/":
-            sh(f"nary-in-bin-{NM[top]}", "nary-in-bin", _combos(4, ["F0", "P0", "C", "Cd"]), [[top, "+"], [top, "*"]])
-            sh(f"bin-in-nary-{NM[top]}", "bin-in-nary", _combos(4, ["F0", "P0", "C", "Cd"]), [["+", top], ["*", top]])
+            six = _combos(4, ["F0", "P0", "Cd"]) + [["F0", "C", "P0", "Cd"], ["C", "F0", "P0", "P0"], ["P0", "C", "F0", "F0"]]
+            sh(f"nary-in-bin-{NM[top]}", "nary-in-bin", six, [[top, "+"], [top, "*"]])
+            sh(f"bin-in-nary-{NM[top]}", "bin-in-nary", six, [["+", top], ["*", top]])
             sh(f"bin-bin-{NM[top]}", "bin-bin", _combos(4, ["F0", "F1", "P0", "Cd"]), [[top, a, b] for a in "+-*/" for b in "+-*/"])
     return out
 
